@@ -382,8 +382,8 @@ func (v *vdrRun) monitors() {
 			removed = append(removed, e)
 		}
 		if reset {
-			v.hist("report-not-judged-fork-was-reset")
-			continue
+			// what a restart removed (reset of unfinished or failed jobs) is not VDR's and is left out
+			v.hist("report-judged-fork-was-reset")
 		}
 		v.hist("report-judged")
 		if n > 0 {
